@@ -276,6 +276,41 @@ func init() {
 		return Val{T: rt, L: err.L}
 	}
 	externEffectTable["encoding/binary.Write"] = externEffectTable["(io.Writer).Write"]
+	// sort.Sort(x) where x is a slice type of the repository: the elements afterwards are a rearrangement of
+	// the elements before (every new element is one of the old ones at a position given by one index function
+	// for all leaves; that the function is a bijection and the result ordered is not modelled)
+	externTable["sort.Sort"] = func(vc *VC, fr *Frame, st *State, call *ssa.CallCommon, args []Val, rt types.Type) Val {
+		mi, ok := call.Args[0].(*ssa.MakeInterface)
+		if !ok {
+			vc.unsupported("sort.Sort of a value whose static type is not known")
+		}
+		slt, ok := mi.X.Type().Underlying().(*types.Slice)
+		if !ok {
+			vc.unsupported("sort.Sort of a non-slice type")
+		}
+		vc.trusted["sort.Sort rearranges the slice through the type's own Len/Swap (every element afterwards is one of the elements before, same length); that the result is a permutation in the full sense and sorted by Less is not modelled"] = true
+		sv := vc.value(fr, mi.X)
+		et := slt.Elem()
+		pf := vc.fresh("sortperm")
+		vc.declareFun(pf, []string{sBV64}, sBV64)
+		lo, hi := sv.L[1], app("bvadd", sv.L[1], sv.L[2])
+		q := vc.fresh("i")
+		inr := and(app("bvsle", lo, q), app("bvslt", q, hi))
+		vc.assume("true", fmt.Sprintf("(forall ((%s %s)) (! (=> %s (and (bvsle %s (%s %s)) (bvslt (%s %s) %s))) :pattern ((%s %s))))", q, sBV64, inr, lo, pf, q, pf, q, hi, pf, q))
+		for _, l := range layoutOf(et).Leaves {
+			hn := elemHeapName(elemKey(et), l.Path)
+			hs := arrSort(sBV64, arrSort(sBV64, l.Sort))
+			h := vc.heapTerm(st, hn, hs)
+			old := vc.define("sro", arrSort(sBV64, l.Sort), sel(h, sv.L[0]))
+			na := vc.freshConst("sra", arrSort(sBV64, l.Sort))
+			q2 := vc.fresh("i")
+			inr2 := and(app("bvsle", lo, q2), app("bvslt", q2, hi))
+			vc.assume("true", fmt.Sprintf("(forall ((%s %s)) (! (= (select %s %s) (ite %s (select %s (%s %s)) (select %s %s))) :pattern ((select %s %s))))", q2, sBV64, na, q2, inr2, old, pf, q2, old, q2, na, q2))
+			vc.setHeap(st, hn, hs, sto(h, sv.L[0], na))
+			vc.dirty[hn] = true
+		}
+		return Val{T: rt}
+	}
 	// unicode/utf8.Valid: a total, side-effect-free predicate of the bytes (its value is left unspecified)
 	externTable["unicode/utf8.Valid"] = func(vc *VC, fr *Frame, st *State, call *ssa.CallCommon, args []Val, rt types.Type) Val {
 		vc.trusted["unicode/utf8.Valid: total and side-effect free; which byte sequences it accepts is not specified"] = true
